@@ -130,6 +130,10 @@ def programs(tier, rnd):
         out.append(("lexical-fault", [base[:s] + ch + base[e:], base[:s] + ch + base[s:], base[:e] + ch + ch + base[e:]][j % 3]))
     for ch in STRAY:
         out.append(("lexical-fault", base + ch))
+    # a byte order mark at the start of the file (rejected or accepted, every label must still refer to the original bytes)
+    out.append(("bom", "\ufeff" + base))
+    out.append(("bom", "\ufeff" + t_blocks(base, 1)))
+    out.append(("bom", "\ufeff" + open(os.path.join(vlib.ROOT, "corpus", "base", "p1.circom")).read()))
     out.append(("include", 'pragma circom 2.0.0;\n/* é */ include "nosuch.circom";\n' + base.split("\n", 1)[1]))
     out.append(("unclosed", base + "\n// é😀\n/* never closed é\n template X() {}\n"))
     out.append(("unclosed2", "pragma circom 2.0.0;\n// " + "é" * 70 + "\ntemplate T() {\n}\n/* x *"))
